@@ -175,7 +175,11 @@ func genC02(t *rapid.T) model.Case {
 			ops = append(ops, model.Op{Kind: "raw", Peer: peer, Seq: seq, Note: "resp", Raw: hex.EncodeToString(respTypeMsg(t, seq, genSEID(t)))})
 		}
 	}
-	return model.Case{Ops: ops}
+	cs := model.Case{Ops: ops}
+	if rapid.IntRange(0, 2).Draw(t, "nodeid") == 0 {
+		cs.Conf = map[string]any{"nodeid": true}
+	}
+	return cs
 }
 
 // checkRespC02 is the per-op oracle of C02.
@@ -242,9 +246,13 @@ func checkRespC02(run *sim.Runner, o *sim.Obs, n4 string) error {
 		if er.NodeID == nil {
 			return fmt.Errorf("est: accepted response without Node ID")
 		}
+		wantNID := n4
+		if run.AgentNodeID != "" {
+			wantNID = run.AgentNodeID
+		}
 		nid, err := er.NodeID.NodeID()
-		if err != nil || nid != n4 {
-			return fmt.Errorf("est: Node ID %q (%v), want the agent's %q", nid, err, n4)
+		if err != nil || nid != wantNID {
+			return fmt.Errorf("est: Node ID %q (%v), want the agent's %q", nid, err, wantNID)
 		}
 		if er.UPFSEID == nil {
 			return fmt.Errorf("est: accepted response without UP F-SEID")
@@ -372,7 +380,17 @@ func causeOfMsg(m message.Message) (uint8, bool) {
 }
 
 func runC02(c model.Case, ev *Ev) error {
-	r, err := sharedRig("bess-uealloc", RigOpts{Mut: func(c *pfcpiface.Conf) { c.CPIface.EnableUeIPAlloc = true; c.CPIface.UEIPPool = "10.250.0.0/16" }})
+	// a third of the histories run against an agent whose Node ID is configured (cpiface.hostname) and differs from
+	// the address of its N4 socket: the Node ID names the node, the UP F-SEID carries the N4 address
+	name, nodeID := "bess-uealloc", ""
+	if b, _ := c.Conf["nodeid"].(bool); b {
+		name, nodeID = "bess-uealloc-nodeid", "198.18.0.1"
+	}
+	r, err := sharedRig(name, RigOpts{Mut: func(c *pfcpiface.Conf) {
+		c.CPIface.EnableUeIPAlloc = true
+		c.CPIface.UEIPPool = "10.250.0.0/16"
+		c.CPIface.NodeID = nodeID
+	}})
 	if err != nil {
 		return fmt.Errorf("INFRA: %v", err)
 	}
@@ -387,6 +405,10 @@ func runC02(c model.Case, ev *Ev) error {
 		return fmt.Errorf("INFRA: %v", err)
 	}
 	defer cleanup(run)
+	run.AgentNodeID = nodeID
+	if nodeID != "" {
+		ev.Label("configured-node-id")
+	}
 	var acc, rej int
 	sessTouched := map[int]bool{}
 	for i, op := range c.Ops {
